@@ -3,7 +3,7 @@
    the per-datagram goroutines of one Serve call, in any order (the steps before
    the lock are goroutine-local, so the lock step is the linearisation point). *)
 From Radius Require Import Base.Bytes Base.Res Model.Attrs Model.Packet Model.Dispatch
-  Spec.C03 Proofs.Dispatch.
+  Spec.C03 Proofs.Dispatch Proofs.DispatchShape.
 Open Scope nat_scope.
 
 Section S.
@@ -61,6 +61,12 @@ Example C06_example :
   end.
 Proof. vm_compute. reflexivity. Qed.
 
+(* the goroutine of a datagram as written: the in-flight table is tested and extended under one hold of the lock
+   before the handler runs, the entry deleted under the lock after it returned, on no other path
+   (Proofs/DispatchShape.v) *)
+Theorem C06_code_order : dispatch_order.
+Proof. exact dispatch_order_holds. Qed.
+
 Print Assumptions C06_inflight_exact.
 Print Assumptions C06_at_most_one_handler_per_key.
 Print Assumptions C06_dispatch_iff.
@@ -68,3 +74,4 @@ Print Assumptions C06_served_again_after_done.
 Print Assumptions C06_exactly_once.
 Print Assumptions C06_reply_goes_back_authentic.
 Print Assumptions C06_oracle.
+Print Assumptions C06_code_order.
